@@ -477,15 +477,222 @@ def oracle_save_load(fmt, job, res):
     return None
 
 
+# ---------------------------------------------------------------------- reference codecs (independent of mouette)
+# Written from the format descriptions (Wavefront OBJ, Geomview OFF, INRIA Medit, .tet / .xyz conventions); they are the
+# Python twins of coq/theories/C04/Ref.v and are checked against it in the kernel-evaluated batches.
+REF_FORMATS = ["xyz", "obj", "off", "tet", "mesh"]
+
+
+def W(s):
+    return ["w", s]
+
+
+def I(n):
+    return ["i", int(n)]
+
+
+def ref_write(fmt, mi):
+    V = [[["f", c] for c in v] for v in mi["V"]]
+    E, Fs, C = (mi["E"] or []), (mi["F"] or []), (mi["C"] or [])
+    if fmt == "xyz":
+        return V
+    if fmt == "obj":
+        return ([[W("#"), W("reference"), W("writer")], [W("o"), W("mesh")]] + [[W("v")] + v for v in V]
+                + [[W("l"), I(a + 1), I(b + 1)] for a, b in E] + [[W("f")] + [I(i + 1) for i in f] for f in Fs])
+    if fmt == "off":
+        return [[W("OFF")], [I(len(V)), I(len(Fs)), I(0)]] + V + [[I(len(f))] + [I(i) for i in f] for f in Fs]
+    if fmt == "tet":
+        return [[I(len(V)), W("vertices")], [I(len(C)), W("tets")]] + V + [[I(len(c))] + [I(i) for i in c] for c in C]
+    if fmt == "mesh":
+        out = [[W("MeshVersionFormatted"), I(2)], [W("Dimension"), I(3)], [W("Vertices")], [I(len(V))]] + [v + [I(0)] for v in V]
+        for kw, ar, els in (("Edges", 2, [list(e) for e in E]), ("Triangles", 3, Fs), ("Quadrilaterals", 4, Fs),
+                            ("Tetrahedra", 4, C), ("Hexahedra", 8, C)):
+            sel = [e for e in els if len(e) == ar]
+            if sel:
+                out += [[W(kw)], [I(len(sel))]] + [[I(i + 1) for i in e] + [I(0)] for e in sel]
+        return out + [[W("End")]]
+    raise ValueError(fmt)
+
+
+class RefError(Exception):
+    pass
+
+
+def _num(t):
+    if t[0] == "i":
+        return bits_of_int(t[1])
+    if t[0] == "f":
+        return t[1]
+    raise RefError("number expected")
+
+
+def bits_of_int(n):
+    return f2b(float(n))
+
+
+def _int(t):
+    if t[0] != "i":
+        raise RefError("integer expected")
+    return t[1]
+
+
+def ref_read(fmt, lines):
+    """independent reader: returns {"V","E","F","C"} or None when the file is not in the format"""
+    try:
+        if fmt == "xyz":
+            V = []
+            for ln in lines:
+                if not ln:
+                    continue
+                if len(ln) < 3:
+                    raise RefError("short line")
+                V.append([_num(t) for t in ln[:3]])
+            return {"V": V, "E": [], "F": [], "C": []}
+        if fmt == "obj":
+            V, E, Fs = [], [], []
+            for ln in lines:
+                if not ln or ln[0][0] != "w":
+                    continue
+                kw, args = ln[0][1], ln[1:]
+                if kw == "v":
+                    if len(args) < 3:
+                        raise RefError("v")
+                    V.append([_num(t) for t in args[:3]])
+                elif kw in ("l", "f"):
+                    idx = []
+                    for t in args:
+                        k = _int(t)
+                        if k < 1:
+                            raise RefError("index")
+                        idx.append(k - 1)
+                    if kw == "l":
+                        if len(idx) < 2:
+                            raise RefError("l")
+                        E += [[idx[i], idx[i + 1]] for i in range(len(idx) - 1)]
+                    else:
+                        if len(idx) < 3:
+                            raise RefError("f")
+                        Fs.append(idx)
+            return {"V": V, "E": E, "F": Fs, "C": []}
+        ts = [t for ln in lines for t in ln]
+        pos = [0]
+
+        def nxt():
+            if pos[0] >= len(ts):
+                raise RefError("eof")
+            pos[0] += 1
+            return ts[pos[0] - 1]
+
+        def polys(n):
+            out = []
+            for _ in range(n):
+                k = _int(nxt())
+                if k < 0:
+                    raise RefError("size")
+                out.append([_int(nxt()) for _ in range(k)])
+            return out
+        if fmt == "off":
+            if nxt() != W("OFF"):
+                raise RefError("header")
+            nv, nf, _ne = _int(nxt()), _int(nxt()), _int(nxt())
+            if nv < 0 or nf < 0:
+                raise RefError("counts")
+            V = [[_num(nxt()) for _ in range(3)] for _ in range(nv)]
+            return {"V": V, "E": [], "F": polys(nf), "C": []}
+        if fmt == "tet":
+            nv = _int(nxt())
+            w1 = nxt()
+            nc = _int(nxt())
+            w2 = nxt()
+            if w1 != W("vertices") or w2 not in (W("tets"), W("cells")) or nv < 0 or nc < 0:
+                raise RefError("header")
+            V = [[_num(nxt()) for _ in range(3)] for _ in range(nv)]
+            return {"V": V, "E": [], "F": [], "C": polys(nc)}
+        if fmt == "mesh":
+            kinds = {"Edges": 2, "Triangles": 3, "Quadrilaterals": 4, "Tetrahedra": 4, "Hexahedra": 8}
+            got = {k: [] for k in kinds}
+            V = []
+            while pos[0] < len(ts):
+                t = nxt()
+                if t[0] != "w":
+                    raise RefError("keyword expected")
+                kw = t[1]
+                if kw == "End":
+                    break
+                if kw == "MeshVersionFormatted":
+                    _int(nxt())
+                elif kw == "Dimension":
+                    if _int(nxt()) != 3:
+                        raise RefError("dimension")
+                elif kw == "Vertices":
+                    n = _int(nxt())
+                    if n < 0:
+                        raise RefError("count")
+                    for _ in range(n):
+                        V.append([_num(nxt()) for _ in range(3)])
+                        nxt()
+                elif kw in kinds:
+                    n = _int(nxt())
+                    if n < 0:
+                        raise RefError("count")
+                    for _ in range(n):
+                        got[kw].append([_int(nxt()) - 1 for _ in range(kinds[kw])])
+                        nxt()
+                else:
+                    raise RefError("unknown keyword " + kw)
+            return {"V": V, "E": got["Edges"], "F": got["Triangles"] + got["Quadrilaterals"], "C": got["Hexahedra"] + got["Tetrahedra"]}
+    except RefError:
+        return None
+    raise ValueError(fmt)
+
+
+def expected_ref_read(fmt, mi, cfg, ignore):
+    """what an independent reader must find in the file mouette wrote (edges as written, not re-sorted)"""
+    want = expected_raw(fmt, mi, cfg, ignore)
+    if fmt == "obj":
+        ign = set(ignore or [])
+        E = [] if "edges" in ign else [list(e) for e in (mi["E"] or [])]
+        hard = None if "edges" in ign else mi.get("hard")
+        F = [] if "faces" in ign else (mi["F"] or [])
+        C = [] if "cells" in ign else (mi["C"] or [])
+        dim = 3 if C else 2 if F else 1 if E else 0
+        if not cfg.get("export_edges_in_obj", True):
+            e = []
+        elif not cfg.get("complete_edges_from_faces", True) or dim == 1:
+            e = E
+        else:
+            e = [E[k] for k in hard] if hard is not None else []
+        want = dict(want, E=e)
+    return want
+
+
+def expected_load_of_ref(fmt, mi):
+    """what loading the reference writer's file must give (it writes every edge / face / cell the format can express)"""
+    V = [list(v) for v in mi["V"]]
+    E, Fs, C = [list(e) for e in (mi["E"] or [])], (mi["F"] or []), (mi["C"] or [])
+    if fmt == "xyz":
+        return {"V": V, "E": [], "F": [], "C": []}
+    if fmt == "obj":
+        return {"V": V, "E": [sorted(e) for e in E], "F": Fs, "C": []}
+    if fmt == "off":
+        return {"V": V, "E": [], "F": Fs, "C": []}
+    if fmt == "tet":
+        return {"V": V, "E": [], "F": [], "C": C}
+    return {"V": V, "E": E, "F": [f for f in Fs if len(f) == 3] + [f for f in Fs if len(f) == 4],
+            "C": [c for c in C if len(c) == 4] + [c for c in C if len(c) == 8]}
+
+
+def raw_obs_term(r):
+    return "None" if r is None else "(Some %s)" % raw_term(dict(r, attrs={}))
+
+
 # ---------------------------------------------------------------------- binary STL
 def f32bits(b64):
-    """binary32 pattern of the rounding of a double, or -1 when it does not fit (numpy, not struct)"""
+    """binary32 pattern of the IEEE rounding of a double (+-inf beyond the binary32 range, as the native-mode struct.pack does); numpy, not struct"""
     import numpy as np
     x = b2f(b64)
     with np.errstate(over="ignore"):
         y = np.float32(x)
-    if not np.isfinite(y):
-        return -1
     return int(np.array([y], dtype=np.float32).view(np.uint32)[0])
 
 
@@ -775,6 +982,44 @@ def run(ctx):
             save_idx.append(idx)
         rt_terms.append("(%s, %s, %s)" % (FMT_COQ[fmt], sw, mt))
 
+    # ---- interoperability: independent reader on mouette's files, mouette's importers on the independent writer's files
+    rr_terms, rw_terms, rw_idx, rw_jobs = [], [], [], []
+    for idx, (job, r) in enumerate(zip(jobs, res)):
+        fmt = job["fmt"]
+        if fmt not in REF_FORMATS or "mesh_in" not in r or not mesh_modelled(r["mesh_in"]):
+            continue
+        mi = r["mesh_in"]
+        if "file" in r and printable(r["file"]["text"].replace("\n", " ")):
+            toks = tokenize(r["file"]["text"])
+            got = ref_read(fmt, toks)
+            rr_terms.append("(%s, %s, %s)" % (FMT_COQ[fmt], lines_term(toks), raw_obs_term(got)))
+            want = expected_ref_read(fmt, mi, job.get("cfg") or {}, job.get("ignore"))
+            ok_shape = all(x >= 0 for e in want["E"] + want["F"] + want["C"] for x in e) and all(len(f) >= 3 for f in want["F"])
+            if ok_shape and (got is None or any(got[k] != want[k] for k in "VEFC")):
+                fails.append((idx, "an independent reader of the format finds %s in the file mouette wrote, the mesh has %s"
+                              % (json.dumps(got)[:200], json.dumps(want)[:200])))
+        if job.get("ignore") is None and not (job.get("cfg") or {}):
+            rw_jobs.append({"k": "load", "fmt": fmt, "text": text_of_lines(ref_write(fmt, mi))})
+            rw_idx.append(idx)
+    rw_res = run_jobs(rw_jobs)
+    for idx, j2, r2 in zip(rw_idx, rw_jobs, rw_res):
+        fmt = jobs[idx]["fmt"]
+        mi = res[idx]["mesh_in"]
+        ld = r2.get("load") or {"raw_exc": r2.get("driver_exc", {"exc": "?", "msg": ""})}
+        ctx.count("reference-writer file loaded: " + fmt)
+        want = expected_load_of_ref(fmt, mi)
+        if fmt == "off" and any(len(f) < 3 for f in want["F"]):
+            pass
+        elif "raw_exc" in ld:
+            fails.append((idx, "loading a file written by an independent writer raised %s: %s" % (ld["raw_exc"]["exc"], ld["raw_exc"]["msg"])))
+        elif any(ld["raw"][k] != want[k] for k in "VEFC"):
+            fails.append((idx, "a file written by an independent writer loads as %s instead of %s" % (json.dumps({k: ld["raw"][k] for k in "VEFC"})[:200], json.dumps(want)[:200])))
+        elif "class" in ld and ld["class"] != implied_class(want):
+            fails.append((idx, "a file written by an independent writer loads as a %s, its content implies %s" % (ld["class"], implied_class(want))))
+        ot, ct = obs_raw_term(ld)
+        if ot is not None:
+            rw_terms.append("(%s, %s, %s, %s, %s)" % (FMT_COQ[fmt], mesh_term(mi), lines_term(tokenize(j2["text"])), ot, ct))
+
     ctx.obligation("oracle: every save -> load of the implementation is lossless within the format's vocabulary and of the implied class",
                    "oracle-on-implementation", True, "%d failing cases" % len(fails))
     ctx.log("terms built")
@@ -783,6 +1028,8 @@ def run(ctx):
         bad_s = ctx.run_cases("save", HEADER, save_terms, "check_save", case_type="(fmt * switches * zmesh * option (list zline))", shard=shard_of(save_terms))
         bad_l = ctx.run_cases("load", HEADER, load_terms, "check_load", case_type="(fmt * list zline * option zraw * option (option string))", shard=shard_of(load_terms))
         bad_r = ctx.run_cases("roundtrip", HEADER, rt_terms, "check_roundtrip", case_type="(fmt * switches * zmesh)", shard=shard_of(rt_terms))
+        ctx.run_cases("refread", HEADER, rr_terms, "check_refread", case_type="(fmt * list zline * option zraw)", shard=shard_of(rr_terms))
+        ctx.run_cases("refwrite", HEADER, rw_terms, "check_refwrite", case_type="(fmt * zmesh * list zline * option zraw * option (option string))", shard=shard_of(rw_terms))
         bad_t = ctx.run_cases("stl", HEADER, stl_terms, "check_stl", case_type="(smesh * option (list sfld) * option (list (list (list Z))))", shard=shard_of(stl_terms))
     else:
         ctx.obligation("correspondence batches", "correspondence", False, "model does not compile")
